@@ -58,6 +58,7 @@ type vbNodeObs struct {
 	CommittedE    bool        `json:"committedE"`
 	CDone         bool        `json:"cdone"`
 	Sealed        *vbMsgDesc  `json:"sealed"`
+	SealPool      *vbPoolObs  `json:"sealPool,omitempty"` // the node's pool (with real signature validity) at the seal decision
 	SealValid     []int       `json:"sealValid"` // distinct peers holding a VALID signature over the sealed block in this node's pool at the seal decision
 	Resync        bool        `json:"resync"`
 	Pending       []string    `json:"pending"`
@@ -88,6 +89,7 @@ type vbNode struct {
 	idx       int
 	s         *Server
 	sealValid []int
+	sealPool  *vbPoolObs
 	sealed    *vbMsgDesc
 	resync bool
 	fired  map[TimerEventType]*time.Timer
@@ -189,6 +191,7 @@ func (w *vbWorld) dispatch(nd *vbNode, a *BftAction) {
 			d.E = a.forEmpty
 			nd.sealed = &d
 			nd.sealValid = w.validSignersFor(nd.s, d.P, d.V, d.E)
+			nd.sealPool = w.net.observePool(nd.s)
 		}
 	}
 }
@@ -323,7 +326,7 @@ func (w *vbWorld) pendingTimers(nd *vbNode) []string {
 
 func (w *vbWorld) observe(nd *vbNode) *vbNodeObs {
 	s := nd.s
-	o := &vbNodeObs{Node: nd.idx, Sealed: nd.sealed, SealValid: nd.sealValid, Resync: nd.resync, Pending: w.pendingTimers(nd), Props: [][2]int{}, Cmsgs: []vbMsgDesc{},
+	o := &vbNodeObs{Node: nd.idx, Sealed: nd.sealed, SealValid: nd.sealValid, SealPool: nd.sealPool, Resync: nd.resync, Pending: w.pendingTimers(nd), Props: [][2]int{}, Cmsgs: []vbMsgDesc{},
 		MpEnd: []vbMsgDesc{}, MpProp: [][2]int{}}
 	pool := s.blockPool
 	pool.lock.RLock()
